@@ -2,9 +2,84 @@ package main
 
 import (
 	"encoding/hex"
+	"math/rand"
 
 	"verif/harness/synth"
 )
+
+// noDistMatchHex: a valid dynamic block with a rich distance code (so that a decoder's
+// distance table is loaded), then a dynamic block that declares NO distance codes at all
+// and nevertheless contains a length symbol.  Malformed: the second block must be
+// rejected at the length symbol, whatever the earlier block left in the tables.
+func noDistMatchHex(rng *rand.Rand, later bool) (string, error) {
+	var w synth.BitWriter
+	if later {
+		first := synth.Desc{Seed: rng.Int63n(1 << 40), Blocks: []synth.BlockDesc{{Type: "dyn", LShape: "flat", DShape: "flat", Toks: "mixed", N: 40 + rng.Intn(200)}}}
+		b, _, err := first.Build()
+		if err != nil {
+			return "", err
+		}
+		// re-emit the first block as non-final: build it with a second dummy block and cut? simpler: use the synthesiser directly
+		_ = b
+		data := make([]byte, 300)
+		rng.Read(data)
+		for i := 100; i < 300; i++ {
+			data[i] = data[i-37-i%50]
+		}
+		toks := synth.Tokenize(data, 32768)
+		freqL := make([]int, 286)
+		freqD := make([]int, 30)
+		for _, t := range toks {
+			if t.Lit >= 0 {
+				freqL[t.Lit]++
+			} else {
+				ls, _, _ := synth.LenSym(t.Len)
+				ds, _, _ := synth.DistSym(t.Dist)
+				freqL[ls]++
+				freqD[ds]++
+			}
+		}
+		freqL[256]++
+		for i := 0; i < 12; i++ {
+			freqD[i]++ // a rich distance code
+		}
+		if err := synth.Dynamic(&w, false, synth.LensFromFreq(freqL, 15), synth.LensFromFreq(freqD, 15), toks, synth.DynOptions{UseRepeat: true}); err != nil {
+			return "", err
+		}
+	}
+	lit := make([]uint8, 286)
+	lit['a'], lit['b'], lit[256], lit[257+rng.Intn(8)] = 2, 2, 2, 2
+	dist := make([]uint8, 30) // all zero: no distance codes
+	sw, err := synth.DynamicHeader(&w, true, lit, dist, synth.DynOptions{})
+	if err != nil {
+		return "", err
+	}
+	sw.Tok(synth.Lit('a'))
+	sw.Tok(synth.Lit('b'))
+	for s := 257; s < 265; s++ {
+		if lit[s] != 0 {
+			sw.LitLenSym(s)
+		}
+	}
+	sw.RawCode(uint32(rng.Intn(4)), 2) // whatever follows where a distance code would be
+	sw.RawCode(0, 8)
+	sw.EOB()
+	w.Bits(0, 16)
+	return hex.EncodeToString(w.Bytes()), nil
+}
+
+// storedFinalHex: a literal-only dynamic block followed by a FINAL stored block, ending at
+// exactly total bytes of output.
+func storedFinalHex(rng *rand.Rand, total, storedLen int) (string, error) {
+	d := synth.Desc{Seed: rng.Int63n(1 << 40), Blocks: []synth.BlockDesc{
+		{Type: "dyn", LShape: []string{"flat", "random"}[rng.Intn(2)], DShape: "none", Toks: "lits", N: total - storedLen},
+		{Type: "stored", LShape: "flat", DShape: "flat", Toks: "lits", N: storedLen}}}
+	b, _, err := d.Build()
+	if err != nil {
+		return "", err
+	}
+	return hex.EncodeToString(b), nil
+}
 
 // fixedMatchHex builds a final fixed-Huffman block "match(length, dist); EOB".
 func fixedMatchHex(length, dist int) string {
